@@ -1,6 +1,8 @@
-import HpackVerif.Impl.Model
-import HpackVerif.Impl.EncModel
-import HpackVerif.Impl.Utf8
+import HpackVerif.Impl.Api
+import HpackVerif.Generated.Consts
+/-! Line-protocol driver: executes the operations of the correspondence harness on the L2 model
+    (`Impl`) instantiated with the `Generated` tables.  One operation per input line, one canonical
+    reply line per operation.  No Mathlib in the import closure (links offline). -/
 open Impl
 
 def hexVal (c : Char) : Nat :=
@@ -15,64 +17,271 @@ def toHex (b : Bytes) : String :=
   if b.isEmpty then "-" else String.ofList (b.flatMap fun x => [hexDigit (x.toNat / 16), hexDigit (x.toNat % 16)])
 
 def showBuf (b : PyBuf) : String := toHex b.bytes ++ (if b.view then "v" else "o")
+def b01 (b : Bool) : String := if b then "1" else "0"
 def showTable (t : Table) : String :=
-  s!"max={t.maxsize} cur={t.curSize} [" ++ ",".intercalate (t.entries.map fun e => showBuf e.1 ++ ":" ++ showBuf e.2) ++ "]"
+  s!"max={t.maxsize} cur={t.curSize} res={b01 t.resized} [" ++
+    ",".intercalate (t.entries.map fun e => showBuf e.1 ++ ":" ++ showBuf e.2) ++ "]"
+def showEnc (e : EncState) : String :=
+  showTable e.table ++ " changes=[" ++ ",".intercalate (e.changes.map toString) ++ "]"
+def showDec (d : DecState) : String :=
+  showTable d.table ++ s!" allowed={d.allowed} limit={d.listLimit}"
 def showErr : DErr → String
   | .decoding => "HPACKDecodingError" | .invalidIndex => "InvalidTableIndexError"
   | .invalidTableSize => "InvalidTableSizeError" | .oversized => "OversizedHeaderListError"
 def showExc : PyExc → String
   | .valueError => "ValueError" | .indexError => "IndexError" | .nonTermination => "NONTERMINATION"
+def showFail {α : Type} : Out α → String
+  | .ok _ => "ok" | .err e => "err " ++ showErr e | .esc x => "esc " ++ showExc x
+def showHeaders (hs : List Header) : String :=
+  if hs.isEmpty then "-" else
+  ",".intercalate (hs.map fun h => toHex h.name.bytes ++ ":" ++ toHex h.value.bytes ++ ":" ++ (if h.never then "N" else "P"))
+
+structure Cfg where
+  cap : Option Nat := Gen.intCap
+  own : Bool := false
+  sticky : Bool := false
+  strict : Bool := false
 
 structure W where
-  dec : DecState := {}
-  enc : EncState := {}
+  cfg : Cfg := {}
+  tables : List (Nat × Table) := []
+  encs : List (Nat × EncState) := []
+  decs : List (Nat × DecState) := []
+  lastOut : List (Nat × Bytes) := []
+
+def aget {α : Type} (l : List (Nat × α)) (i : Nat) : Option α := (l.find? (·.1 == i)).map (·.2)
+def aset {α : Type} (l : List (Nat × α)) (i : Nat) (a : α) : List (Nat × α) := (i, a) :: l.filter (·.1 != i)
+
+def newTable : Table := { maxsize := Gen.defaultSize }
+def newEnc : EncState := { table := { maxsize := Gen.defaultEncSize } }
+def newDec (limit : Nat) : DecState := { table := { maxsize := Gen.defaultSize }, allowed := Gen.defaultAllowed, listLimit := limit }
 
 def parseHdr (s : String) : Bytes × Bytes × Bool :=
   match s.splitOn ":" with
   | [n, v, f] => (parseHex n, parseHex v, f == "1")
   | _ => ([], [], false)
 
-def stepEnc (e : EncState) (toks : List String) : EncState × String :=
+/-- form-annotated field `<k><nf><vf>:<name hex>:<value hex>` with k ∈ 2,3f,3t,H,N (tuple2, tuple3 false/true,
+    HeaderTuple, NeverIndexedHeaderTuple) and nf/vf ∈ b,s (bytes / str).  A `str` is given by the hex of its
+    UTF-8 encoding (the harness only produces valid text). -/
+def mkStr (f : Char) (h : String) : PyStr :=
+  let b := parseHex h
+  if f == 's' then
+    match String.fromUTF8? (ByteArray.mk b.toArray) with
+    | some s => .text s
+    | none => .bytes b
+  else .bytes b
+def parseForm (s : String) : Option FieldForm :=
+  match s.splitOn ":" with
+  | [k, n, v] =>
+    match k.toList with
+    | ['2', nf, vf] => some (.tuple2 (mkStr nf n) (mkStr vf v))
+    | ['3', 'f', nf, vf] => some (.tuple3 (mkStr nf n) (mkStr vf v) false)
+    | ['3', 't', nf, vf] => some (.tuple3 (mkStr nf n) (mkStr vf v) true)
+    | ['H', nf, vf] => some (.headerTuple (mkStr nf n) (mkStr vf v))
+    | ['N', nf, vf] => some (.neverTuple (mkStr nf n) (mkStr vf v))
+    | _ => none
+  | _ => none
+def parseItem (s : String) : Option (PyStr × PyStr) :=
+  match s.splitOn ":" with
+  | [k, n, v] =>
+    match k.toList with
+    | ['D', nf, vf] => some (mkStr nf n, mkStr vf v)
+    | _ => none
+  | _ => none
+
+/-- representation trace of one block against a decoder state (for the judges): per field
+    kind (I indexed, L incremental literal, W literal without indexing, N never-indexed literal, U size update),
+    octets consumed, the index used (0 = literal name) and the H bits of name/value strings -/
+def traceLoop (cfg : Cfg) (fuel : Nat) (st : DecState) (data : Bytes) (seen : Bool) (acc : List String) : List String × String :=
+  match fuel with
+  | 0 => (acc.reverse, "esc NONTERMINATION")
+  | fuel + 1 =>
+    match data with
+    | [] => (acc.reverse, "end")
+    | b0 :: _ =>
+      let cur := b0.toNat
+      let kind := if cur &&& 0x80 ≠ 0 then "I" else if cur &&& 0x40 ≠ 0 then "L" else if cur &&& 0x20 ≠ 0 then "U"
+                  else if cur &&& 0x10 ≠ 0 then "N" else "W"
+      let pfx := if kind == "I" then 7 else if kind == "L" then 6 else if kind == "U" then 5 else 4
+      let idx := match decodeInt cfg.cap data pfx with | .ok (v, _) => v | _ => 0
+      match decodeField cfg.cap cfg.own st data seen with
+      | .ok (h, consumed, st') =>
+        let hs := match h with
+          | some h => toHex h.name.bytes ++ ":" ++ toHex h.value.bytes
+          | none => "-"
+        let item := s!"{kind}/{consumed}/{idx}/{hs}"
+        traceLoop cfg fuel st' (data.drop consumed) (seen || h.isSome) (item :: acc)
+      | .err e => (acc.reverse, "err " ++ showErr e)
+      | .esc x => (acc.reverse, "esc " ++ showExc x)
+
+def step (w : W) (toks : List String) : W × String :=
   match toks with
-  | ["enew"] => ({}, "ok")
-  | ["esize", n] =>
-    match e.setSize false n.toNat! with
-    | .ok e' => (e', "ok | " ++ showTable e'.table ++ s!" resized={e'.table.resized} changes={e'.changes}")
-    | .err x => (e, "err " ++ showErr x) | .esc x => (e, "esc " ++ showExc x)
-  | "eenc" :: huff :: hs =>
-    let hs := if hs == ["-"] then [] else hs.map parseHdr
-    match e.encode false hs (huff == "1") with
-    | .ok (b, e') => (e', "ok " ++ toHex b ++ " | " ++ showTable e'.table ++ s!" resized={e'.table.resized} changes={e'.changes}")
-    | .err x => (e, "err " ++ showErr x) | .esc x => (e, "esc " ++ showExc x)
-  | ["utf8", h] => (e, if validUtf8 (parseHex h) then "1" else "0")
-  | ["henc", h] => (e, "ok " ++ toHex (huffEncode Gen.codes (parseHex h)))
-  | ["ienc", n, N] => (e, "ok " ++ toHex (encodeInt n.toNat! N.toNat!))
-  | _ => (e, "bad-op")
+  | "cfg" :: rest =>
+    let cfg := rest.foldl (fun (c : Cfg) kv =>
+      match kv.splitOn "=" with
+      | ["cap", v] => { c with cap := if v == "none" then none else some v.toNat! }
+      | ["own", v] => { c with own := v == "1" }
+      | ["sticky", v] => { c with sticky := v == "1" }
+      | ["strict", v] => { c with strict := v == "1" }
+      | _ => c) w.cfg
+    ({ w with cfg := cfg }, "ok")
+  -- pure codecs
+  | ["ienc", n, N] =>
+    match n.toInt?, N.toInt? with
+    | some n, some N =>
+      (w, match encodeIntApi n N with
+          | .ok b => "ok " ++ toHex b
+          | r => showFail r)
+    | _, _ => (w, "bad-op")
+  | ["idec", h, N] =>
+    match N.toInt? with
+    | some N =>
+      (w, match decodeIntApi w.cfg.cap (parseHex h) N with
+          | .ok (v, k) => "ok 0x" ++ String.ofList (Nat.toDigits 16 v) ++ s!" {k}"
+          | r => showFail r)
+    | none => (w, "bad-op")
+  | ["henc", h] => (w, "ok " ++ toHex (huffEncode Gen.codes (parseHex h)))
+  | ["hdec", h] =>
+    (w, match huffDecodeBuf (parseHex h) with
+        | .ok b => "ok " ++ toHex b.bytes
+        | r => showFail r)
+  | ["utf8", h] => (w, if validUtf8 (parseHex h) then "1" else "0")
+  -- HeaderTable
+  | ["tnew", id] => ({ w with tables := aset w.tables id.toNat! newTable }, "ok | " ++ showTable newTable)
+  | ["tadd", id, n, v] =>
+    match aget w.tables id.toNat! with
+    | none => (w, "bad-id")
+    | some t =>
+      match t.add ⟨parseHex n, false⟩ ⟨parseHex v, false⟩ with
+      | .ok t' => ({ w with tables := aset w.tables id.toNat! t' }, "ok | " ++ showTable t')
+      | r => (w, showFail r ++ " | " ++ showTable t)
+  | ["tmax", id, n] =>
+    match aget w.tables id.toNat! with
+    | none => (w, "bad-id")
+    | some t =>
+      match t.setMaxsize n.toNat! with
+      | .ok t' => ({ w with tables := aset w.tables id.toNat! t' }, "ok | " ++ showTable t')
+      | r => (w, showFail r ++ " | " ++ showTable t)
+  | ["tget", id, i] =>
+    match aget w.tables id.toNat! with
+    | none => (w, "bad-id")
+    | some t =>
+      (w, match t.getByIndex i.toNat! with
+          | .ok e => "ok " ++ toHex e.1.bytes ++ ":" ++ toHex e.2.bytes
+          | r => showFail r)
+  | ["tsearch", id, n, v] =>
+    match aget w.tables id.toNat! with
+    | none => (w, "bad-id")
+    | some t =>
+      (w, match t.search (parseHex n) (parseHex v) with
+          | none => "none"
+          | some (i, p) => s!"{i} " ++ (if p then "P" else "N"))
+  | ["tdump", id] =>
+    match aget w.tables id.toNat! with
+    | none => (w, "bad-id")
+    | some t => (w, "ok | " ++ showTable t)
+  -- Encoder
+  | ["enew", id] => ({ w with encs := aset w.encs id.toNat! newEnc }, "ok | " ++ showEnc newEnc)
+  | ["esize", id, n] =>
+    match aget w.encs id.toNat! with
+    | none => (w, "bad-id")
+    | some e =>
+      match e.setSize w.cfg.sticky n.toNat! with
+      | .ok e' => ({ w with encs := aset w.encs id.toNat! e' }, "ok | " ++ showEnc e')
+      | r => (w, showFail r ++ " | " ++ showEnc e)
+  | "eenc" :: id :: huff :: hs =>
+    match aget w.encs id.toNat! with
+    | none => (w, "bad-id")
+    | some e =>
+      let hs := if hs == ["-"] then [] else hs.map parseHdr
+      match e.encode w.cfg.strict hs (huff == "1") with
+      | .ok (b, e') => ({ w with encs := aset w.encs id.toNat! e', lastOut := aset w.lastOut id.toNat! b }, "ok " ++ toHex b ++ " | " ++ showEnc e')
+      | r => (w, showFail r ++ " | " ++ showEnc e)
+  | "eapi" :: id :: huff :: cont :: fs =>
+    match aget w.encs id.toNat! with
+    | none => (w, "bad-id")
+    | some e =>
+      let fs := if fs == ["-"] then [] else fs
+      let c : Option Container :=
+        if cont == "dict" then (fs.mapM parseItem).map Container.dict
+        else (fs.mapM parseForm).map Container.iterable
+      match c with
+      | none => (w, "bad-op")
+      | some c =>
+        match e.encodeApi w.cfg.strict c (huff == "1") with
+        | .ok (b, e') => ({ w with encs := aset w.encs id.toNat! e', lastOut := aset w.lastOut id.toNat! b }, "ok " ++ toHex b ++ " | " ++ showEnc e')
+        | r => (w, showFail r ++ " | " ++ showEnc e)
+  | ["edump", id] =>
+    match aget w.encs id.toNat! with
+    | none => (w, "bad-id")
+    | some e => (w, "ok | " ++ showEnc e)
+  -- Decoder
+  | ["dnew", id] => let d := newDec Gen.defaultListLimit; ({ w with decs := aset w.decs id.toNat! d }, "ok | " ++ showDec d)
+  | ["dnew", id, lim] => let d := newDec lim.toNat!; ({ w with decs := aset w.decs id.toNat! d }, "ok | " ++ showDec d)
+  | ["dallow", id, n] =>
+    match aget w.decs id.toNat! with
+    | none => (w, "bad-id")
+    | some d => let d' := { d with allowed := n.toNat! }; ({ w with decs := aset w.decs id.toNat! d' }, "ok | " ++ showDec d')
+  | ["dlimit", id, n] =>
+    match aget w.decs id.toNat! with
+    | none => (w, "bad-id")
+    | some d => let d' := { d with listLimit := n.toNat! }; ({ w with decs := aset w.decs id.toNat! d' }, "ok | " ++ showDec d')
+  | ["dsize", id, n] =>
+    match aget w.decs id.toNat! with
+    | none => (w, "bad-id")
+    | some d =>
+      match d.table.setMaxsize n.toNat! with
+      | .ok t' => let d' := { d with table := t' }; ({ w with decs := aset w.decs id.toNat! d' }, "ok | " ++ showDec d')
+      | r => (w, showFail r ++ " | " ++ showDec d)
+  | ["ddec", id, raw, h] =>
+    match aget w.decs id.toNat! with
+    | none => (w, "bad-id")
+    | some d =>
+      let (r, d') := decodeApi w.cfg.cap w.cfg.own d (parseHex h) (raw == "1")
+      let out := match r with
+        | .ok hs => "ok " ++ showHeaders hs
+        | r => showFail r
+      ({ w with decs := aset w.decs id.toNat! d' }, out ++ " | " ++ showDec d')
+  | ["pipe", id, raw, eid] =>
+    match aget w.decs id.toNat! with
+    | none => (w, "bad-id")
+    | some d =>
+      let data := (aget w.lastOut eid.toNat!).getD []
+      let (r, d') := decodeApi w.cfg.cap w.cfg.own d data (raw == "1")
+      let out := match r with
+        | .ok hs => "ok " ++ showHeaders hs
+        | r => showFail r
+      ({ w with decs := aset w.decs id.toNat! d' }, out ++ " | " ++ showDec d')
+  | ["dtrace", id, h] =>
+    match aget w.decs id.toNat! with
+    | none => (w, "bad-id")
+    | some d =>
+      let data := parseHex h
+      let (items, fin) := traceLoop w.cfg (data.length + 1) d data false []
+      (w, "trace " ++ (if items.isEmpty then "-" else ",".intercalate items) ++ " " ++ fin)
+  | ["dget", id, i] =>
+    match aget w.decs id.toNat! with
+    | none => (w, "bad-id")
+    | some d =>
+      (w, match d.table.getByIndex i.toNat! with
+          | .ok e => "ok " ++ toHex e.1.bytes ++ ":" ++ toHex e.2.bytes
+          | r => showFail r)
+  | ["ddump", id] =>
+    match aget w.decs id.toNat! with
+    | none => (w, "bad-id")
+    | some d => (w, "ok | " ++ showDec d)
+  | _ => (w, "bad-op")
 
-def step (st : DecState) (line : String) : DecState × String :=
-  match line.trimAscii.toString.splitOn " " with
-  | ["dnew"] => ({}, "ok")
-  | ["dallow", n] => ({ st with allowed := n.toNat! }, "ok")
-  | ["dlimit", n] => ({ st with listLimit := n.toNat! }, "ok")
-  | ["ddec", h] =>
-    let (r, st') := decode none false st (parseHex h)
-    let out := match r with
-      | .ok hs => "ok " ++ ",".intercalate (hs.map fun h => toHex h.name.bytes ++ ":" ++ toHex h.value.bytes ++ ":" ++ (if h.never then "N" else "P"))
-      | .err e => "err " ++ showErr e
-      | .esc x => "esc " ++ showExc x
-    (st', out ++ " | " ++ showTable st'.table)
-  | _ => (st, "bad-op")
-
-partial def loop (h : IO.FS.Stream) (w : W) : IO Unit := do
+partial def mainLoop (h : IO.FS.Stream) (out : IO.FS.Stream) (w : W) : IO Unit := do
   let line ← h.getLine
   if line.isEmpty then return ()
-  let toks := line.trimAscii.toString.splitOn " "
-  if (toks.headD "").startsWith "d" then
-    let (st', out) := step w.dec line
-    IO.println out
-    loop h { w with dec := st' }
-  else
-    let (e', out) := stepEnc w.enc toks
-    IO.println out
-    loop h { w with enc := e' }
-def main : IO Unit := do loop (← IO.getStdin) {}
+  let toks := (line.trimAscii.toString.splitOn " ").filter (· ≠ "")
+  let (w', reply) := step w toks
+  out.putStrLn reply
+  mainLoop h out w'
+
+def main : IO Unit := do
+  let out ← IO.getStdout
+  mainLoop (← IO.getStdin) out {}
+  out.flush
